@@ -70,7 +70,9 @@ func (t *Thread) GetAttr(name string) (Object, bool) {
 func (t *Thread) Wait(ctx context.Context) Object {
 	select {
 	case <-ctx.Done():
-		return Errorf("wait error: %s", ctx.Err())
+		// The context's own error, as the channel operations report it: the
+		// host compares what the evaluation returns with it
+		return NewError(ctx.Err())
 	case <-t.done:
 		return t.result
 	}
